@@ -658,6 +658,56 @@ def forms_composed_case(ctx, rng, idx):
             return
 
 
+def composed_layout_case(ctx, rng, idx):
+    """composed models document the matrix (n_param_per_dim, n_dim) and the
+    per-individual tensor layout too: for sub-models with the same number of
+    parameters per dimension the same values in those layouts score the
+    same as the flat vector"""
+    n_ids = int(rng.integers(1, 5))
+    kinds = 'GLT' if idx % 3 else 'P'
+    n_parts = int(rng.integers(2, 4))
+    leaves = [GP.make_leaf(kinds[int(rng.integers(len(kinds)))],
+                           int(rng.integers(1, 3)), True, 0, None, n_ids)
+              for _ in range(n_parts)]
+    layout = ['matrix', 'tensor'][idx % 2]
+    codes = [GP.leaf_code(l) for l in leaves]
+    feats = {'leaves': codes, 'n_ids': n_ids, 'layout': layout,
+             'composed': True}
+    ctx.case(('composed_layout', '+'.join(codes), min(n_ids, 2), layout),
+             True, sample=feats)
+    model = GP.build_chi(leaves, n_ids, force_composed=True)
+    tops = [GP.leaf_top(rng, l, n_ids) for l in leaves]
+    flat = np.concatenate(tops)
+    # (n_param_per_dim, total n_dim): column d holds the parameters of
+    # dimension d
+    mat = np.hstack([t.reshape(-1, l.n_dim) for t, l in zip(tops, leaves)])
+    arr = mat if layout == 'matrix' else np.broadcast_to(
+        mat[None], (n_ids,) + mat.shape).copy()
+    obs = np.hstack([
+        GP.leaf_bottom(rng, l, n_ids) if l.kind in 'GLT' else
+        np.broadcast_to(t[None, :], (n_ids, l.n_dim))
+        for t, l in zip(tops, leaves)])
+    ctx.count('composed_layout_cases')
+    try:
+        v_flat = model.compute_log_likelihood(flat, obs)
+    except Exception as e:      # noqa
+        ctx.violation_exc('evaluation_raises', e, {'case': feats}, feats)
+        return
+    try:
+        v = model.compute_log_likelihood(arr, obs)
+    except Exception as e:      # noqa
+        ctx.violation_exc('composed_layout_raises', e,
+                          {'case': feats, 'flat_value': v_flat}, feats)
+        return
+    ctx.count('layout_pairs_compared')
+    if not ctx.close(v, v_flat, rtol=1e-12, scale=abs(v_flat) + 1) and not (
+            v == v_flat):
+        ctx.violation('layout_invariance',
+                      'layout_value_differs:composed:' + layout,
+                      {'flat': v_flat, layout: v, 'parameters': arr},
+                      feats)
+
+
 FAMILIES = [
     Family('leaf', leaf_case, quick=4200, thorough=84000),
     Family('composed', composed_case, quick=1500, thorough=30000),
@@ -666,4 +716,6 @@ FAMILIES = [
     Family('forms', forms_case, quick=1470, thorough=14700),
     Family('forms_composed', forms_composed_case, quick=800,
            thorough=8000),
+    Family('composed_layout', composed_layout_case, quick=240,
+           thorough=2400),
 ]
